@@ -5,6 +5,7 @@ import (
 	"strings"
 
 	varmq "github.com/goptics/varmq"
+	"github.com/goptics/varmq/internal/vrt"
 )
 
 // Scenario families around job handles, outcomes / panics and batches.
@@ -314,6 +315,7 @@ func init() {
 				w := h.NewWorker(kp.W, 2)
 				q := w.Bind(kp.Q, nil)
 				go func() { q.Close() }()
+				vrt.Point(vrt.OpPlain, nil, nil) // Close may also run to completion before AddAll is called
 				b := q.AddAll([]int{0, 1, 2}, nil)
 				if b.Results != nil || b.Errs != nil {
 					go func() { h.ReadStream(b) }()
